@@ -1,15 +1,18 @@
 #!/usr/bin/env python3
 """Re-run every check against every confirmed seeded change (applies the patch to /repo, runs ./check all quick, reverts)."""
 import glob, json, os, re, subprocess
-env = dict(os.environ, VERIF_NO_EVIDENCE="1")
+R = os.environ.get("RECHECK_REPO", "/tmp/wt_recheck")   # scratch worktree (never /repo itself)
+if not os.path.isdir(R):
+    subprocess.run(f"git -C /repo worktree add --detach {R} HEAD", shell=True, check=True, capture_output=True)
+env = dict(os.environ, VERIF_NO_EVIDENCE="1", VERIF_REPO=R)
 rows = []
-for d in sorted(glob.glob(os.environ.get("SEEDED_GLOB","/verif/seeded/C*-*"))):
+for d in sorted([d for d in glob.glob(os.environ.get("SEEDED_GLOB","/verif/seeded/C*-*")) if not d.endswith('-refactor')]):
     meta = json.load(open(d + '/meta.json'))
-    assert subprocess.run("git status --porcelain", shell=True, cwd="/repo", capture_output=True, text=True).stdout.strip() == ""
-    if subprocess.run(f"git apply {d}/patch.diff", shell=True, cwd="/repo").returncode != 0:
+    assert subprocess.run("git status --porcelain", shell=True, cwd=R, capture_output=True, text=True).stdout.strip() == ""
+    if subprocess.run(f"git apply {d}/patch.diff", shell=True, cwd=R).returncode != 0:
         print(d, "patch no longer applies"); continue
     p = subprocess.run("./check all quick", shell=True, cwd="/verif", env=env, capture_output=True, text=True)
-    subprocess.run("git checkout -- . && git clean -fdq", shell=True, cwd="/repo")
+    subprocess.run("git checkout -- . && git clean -fdq", shell=True, cwd=R)
     caught, cur = {}, None
     for l in p.stdout.split("\n"):
         m = re.match(r"VIOLATION property=(C\d+)", l)
